@@ -22,7 +22,7 @@ use super::alertlog::{Alert, AlertLog};
 use super::graveyard::Graveyard;
 use super::iobufs::{Incoming, Outgoing};
 use super::logs::{AckLog, DataLog};
-use super::scheduler::{ScheduleReason, Scheduler};
+use super::scheduler::{ScheduleReason, Scheduler, Status};
 use super::shared_subs::SharedGroup;
 use super::{
     packetid, Connection, DataRequest, Event, FilterIdx, Meter, Notification, Print, RouterMeter,
@@ -245,10 +245,19 @@ impl Router {
             Event::NewAlert(tx) => self.handle_new_alert(tx),
             Event::DeviceData => self.handle_device_payload(id),
             Event::Disconnect => self.handle_disconnection(id, None),
-            Event::Ready => self.scheduler.reschedule(id, ScheduleReason::Ready),
-            Event::Shadow(request) => {
-                retrieve_shadow(&mut self.datalog, &mut self.obufs[id], request)
-            }
+            Event::Ready => match self.scheduler.trackers.get(id).map(|t| t.status) {
+                Some(Status::Paused(PauseReason::Busy)) => {
+                    self.scheduler.reschedule(id, ScheduleReason::Ready)
+                }
+                // A late `Ready`: the connection in this slot is not waiting for its link
+                Some(_) => {}
+                // A link can signal readiness after the router has already dropped its connection
+                None => error!("no-connection id {} is already gone", id),
+            },
+            Event::Shadow(request) => match self.obufs.get_mut(id) {
+                Some(outgoing) => retrieve_shadow(&mut self.datalog, outgoing, request),
+                None => error!("no-connection id {} is already gone", id),
+            },
             Event::SendAlerts => {
                 self.send_alerts();
             }
